@@ -2,7 +2,8 @@
 (* Schedule generator for C17: for every group TLC enumerates the overlap patterns (1..MaxPar     *)
 (* operations in gate-release order, at most two instances of each) and the environment twist     *)
 (* applied between the sequential prologue and the overlapping operations.  One printed behaviour  *)
-(* = one schedule: [g, pre (sequential calls), par (overlapping calls in release order)].           *)
+(* = one schedule: [g, pre (sequential calls), par (overlapping calls in release order), hold (how   *)
+(* the environment resolves the overlap: free-running, or one call held at an interface)].          *)
 EXTENDS Concurrency, Json
 
 VARIABLE hist
@@ -13,13 +14,13 @@ SInit == Init /\ hist = <<>>
 SetToSeq(S) == CHOOSE f \in [1..Cardinality(S) -> S] : \A i, j \in 1..Cardinality(S) : i < j => f[i] < f[j]
 
 \* sets inside operations are printed as sorted sequences
-Enc(o) == [k \in DOMAIN o |-> IF k \in {"x", "v"} /\ o.op \in {"NodeSet", "Attest", "Round", "RestRegs"} THEN SetToSeq(o[k]) ELSE o[k]]
+Enc(o) == [k \in DOMAIN o |-> IF k \in {"x", "v"} /\ o.op \in {"NodeSet", "Attest", "Round", "RestRegs", "Offer"} THEN SetToSeq(o[k]) ELSE o[k]]
 EncSeq(s) == [i \in DOMAIN s |-> Enc(s[i])]
 
 SNext ==
     /\ hist = <<>>
-    /\ \E t \in Twists(g) : \E s \in Schedules(g) :
-          hist' = <<[ev |-> "Schedule", g |-> g, pre |-> EncSeq(Prologue(g) \o t), par |-> EncSeq(s)]>>
+    /\ \E t \in Twists(g) : \E s \in Schedules(g) : \E h \in Holds(g, s) :
+          hist' = <<[ev |-> "Schedule", g |-> g, pre |-> EncSeq(Prologue(g) \o t), par |-> EncSeq(s), hold |-> h]>>
     /\ UNCHANGED vars
 
 SSpec == SInit /\ [][SNext]_svars
